@@ -185,7 +185,7 @@ def extra_probes(ctx, ver, strings, label):
     conc.warm_threads(ctx, small, lambda s: core.impl_construct(ver, "s", s), "v%s" % ver,
                       replay_of=lambda s: {"op": "scores", "ver": ver, "s": s, "threads": 4})
     ops = [["S", ver, s] for s in small[:: max(1, len(small) // 160)] if core.sendable(s)]
-    conc.cold_start(ctx, ops, "v%s" % ver, runs=ctx.n(3, 12))
+    conc.cold_start(ctx, ops, "v%s" % ver, runs=ctx.n(6, 16), nthreads=8)
     # interpreter options that must not matter (-O, -OO, PYTHONOPTIMIZE), objects pickled across processes with other hash seeds
     conc.flag_variants(ctx, ops, "v%s" % ver)
     conc.pickle_across(ctx, [(ver, op[2]) for op in ops[:: max(1, len(ops) // 60)]], "v%s" % ver)
